@@ -64,9 +64,9 @@ n_all = len(rows)
 n_missed = sum(1 for r in rows if "missed by the first version" in r[5] or "first version of the check itself hung" in r[5] or "MISSED" in r[5])
 n_weak = sum(1 for r in rows if "only as a broken correspondence" in r[5] or "no-failing-input-found" in r[5] and "first version" in r[5])
 out.insert(len(out) - 1, "")
-out[-1] = out[-1].replace("| Property | Id |", ("**Campaign.** %d changes were kept, written in five rounds by fresh agents that saw only the text of one property and a scratch worktree "
+out[-1] = out[-1].replace("| Property | Id |", ("**Campaign.** %d changes were kept, written in six rounds by fresh agents that saw only the text of one property and a scratch worktree "
     "(later rounds were told what had been tried and asked for mechanisms far from it: callers in other packages, configuration and flag handling, "
-    "start-up and shutdown order, error and retry paths, whole-pipeline effects). %d of them were MISSED by the check as it stood when they were written and %d more were "
+    "start-up and shutdown order, error and retry paths, whole-pipeline effects; the sixth round, run in the last session, also asked for state carried from one seed or pass to the next and for rarely used options). %d of them were MISSED by the check as it stood when they were written and %d more were "
     "reported only as a broken correspondence without a failing input; every one of these led to a strengthening (a new leg, generator dimension, monitor or theorem - "
     "named in the last column) and is now reported with a concrete failing input by the check of its own property - with one exception stated in the table: C16-m10 is caught by the check of C06, the property that owns the redirect limit, not by C16's. Four of the strengthenings exposed genuine defects of the "
     "unchanged code that were then repaired (`fix:` commits d7c4d36, 55466e0, 3ec1779, 210c439). Three thorough-tier false alarms of the checks themselves "
